@@ -79,6 +79,14 @@ def run():
         lines += ['{"e":"Reset"}'] + t
         group += [i] * (len(t) + 1)
     res = vlib.validate_sharded('TraceApi', 'TraceApi.cfg', lines, 'c03', shards=16, timeout=1500, group=group, independent=False)
+    # conformance with the model's internal decisions/state (skip & rebind decisions, pointers, version copies, reset word):
+    # a mismatch is model drift, reported but not a violation of the property
+    res2 = vlib.validate_sharded('TraceApi', 'TraceApiModel.cfg', lines, 'c03m', shards=16, timeout=1500, group=group, independent=False)
+    ck.cov['parts']['TraceApiModel'] = {'trace_events_accepted': res2['accepted'], 'trace_events_total': res2['total'], 'model_drift': [x['line'][:240] for x in res2['rejected']][:5]}
+    ck.cov['states'] += res2['states']
+    ck.cov['transitions'] += res2['transitions']
+    if res2['rejected'] and not res['rejected']:
+        vlib.log('[c03] MODEL-DRIFT: %s' % res2['rejected'][0]['line'][:300])
     # a rejection inside one scenario hides the scenarios behind it in the same shard: re-validate those singly
     rejected = list(res['rejected'])
     ck.add_traces('TraceApi', res, 'API histories replayed on the real library (digest, fresh digest, internal pointers, skip decisions, FP word)')
